@@ -170,6 +170,9 @@ class Driver:
         return app
 
     def new_event(self, n):
+        if self.serial > 2000:
+            self.runaway = True
+            raise Runaway('too many events')
         ev = Event.create('e%d' % n)
         ev.c08_serial = self.serial
         self.fired[self.serial] = n
@@ -398,7 +401,8 @@ class Gen:
             h[10 + n] = [self.body(n + 1) for _ in range(r.choice([0, 1, 1, 2]))]
         h[1] = [self.body(0, p_exc=0.08) for _ in range(r.choice([0, 0, 1, 2]))]
         if r.random() < 0.5:
-            h[3] = [{'t': 'p', 'a': self.acts(0, stop_p=0.1, nmax=2), 'r': ['r']}]
+            # exception handlers fire nothing (a raising handler downstream would make the program cyclic)
+            h[3] = [{'t': 'p', 'a': self.acts(NUSER, stop_p=0.3, nmax=2), 'r': ['r']}]
         # the stop site
         place = r.choice(['started', 'chain', 'gen', 'thread', 'ext', 'exit', 'kbd', 'none', 'stopped', 'gen-exit'])
         code = r.choice(CODES)
@@ -490,7 +494,7 @@ class C08(Prop):
     id = 'C08'
     props_file = 'Props/C08.v'
     imports = ['Model.KLoop', 'Model.KLoopObs']
-    quick_n = 500
+    quick_n = 300
     thorough_n = 6000
     rule = ('random programs of scripted plain/generator handlers on started, stopped, exception and 5 user events '
             '(acyclic firing), with one deliberately placed stop site (started / mid-chain / generator step / second '
